@@ -69,6 +69,18 @@ CHECKS = {
          'R = sd^2 I with matching shapes, None at absent times, noise-free simulated measurement gives 0 and an injected error e gives -e. Exploration.',
     note='Central-difference tolerance 2e-5*(1+|V|+|l|(1+|w|)) plus the second-order meridian-convergence coupling |z| tan(lat)/R for Position.',
     design='DESIGN.md section 4, C06'),
+ 'C14': dict(
+    technique='property-based testing of algebraic inverse/identity relations between simulator and estimator; block-wise enumeration of the enable-mask space; deterministic statistical test of simulated variances',
+    text='Generated enable masks (110592 valid; thorough enumerates all 512 scale/misalignment masks of every (bias, noise) block it draws and reports coverage) x parameter values x sensor type x irregular stamps x argument forms: '
+         'simulate-then-correct is the identity (64 ulp cond T), output_matrix(x)@state-by-name equals the simulated error, update additivity, name/shape/covariance/noise layout, invalid masks rejected, and normalised simulated white noise / bias walk have unit variance. Exploration.',
+    note='Variance thresholds [0.8,1.25] and +-0.1 on 10000 samples (>9 sigma); mask space completeness is reported under masks_enumerated_completely, parameter values are sampled.',
+    design='DESIGN.md section 4, C14'),
+ 'C15': dict(
+    technique='property-based testing against a longdouble RK4+Richardson reference with a bound-form order-of-residual oracle over an interval ladder',
+    text='Generated linear and sinusoidal 3-axis signals x sensor type x ladder 160..1.25 ms: rotation vector error <= c S5 h^5 and velocity increment error after adding a x (a x d) h^3/6 <= c S4 h^4 for linear signals (exact through the cubic terms; the only '
+         'cubic discrepancy is the neglected rotation term), O(h^3) bounds for sinusoids; table structure (rows, index, dt bitwise, locality) for uniform and irregular stamps. Exploration.',
+    note='Constants c calibrated on the unchanged tree with >=5x margin (recorded in the module); reference error estimated by step doubling each case.',
+    design='DESIGN.md section 4, C15'),
 }
 NOT_YET = 'check not built yet in this session (planned, see DESIGN.md section 8); not claimed until its check exists'
 
